@@ -32,8 +32,16 @@ under configurations that differ in `inlineElements` / any other markup option /
 and generators: c08_opts.py. Their > 1 400 distinct probes get their reference from `reference_batch` (one process per probe, forked
 from an interpreter that has only imported the library) instead of one `python` start each.
 
-A step is a JSON dict {'abbr', 'cfg' (plain config dict without cache), 'how': 'fresh' | 'dict' | 'Config',
-'obj': id of the shared caller object (for how != 'fresh'), 'cache': id of a shared cache dict or None}.
+Round 4: the `context` element of the configuration and caller dicts that are *edited in place* between calls (clause
+context-switch; pools in c08_ctx.py; step kinds 'update' / 'update+Config'), and callers whose user stylesheet *snippet tables*
+differ, each with a cache of its own or none (clause snippet-table-switch; tables built for every built-in property family in
+c08_tables.py). `check_probes(steps, probes)` = check_history with several probe calls after one history.
+
+A step is a JSON dict {'abbr', 'cfg' (plain config dict without cache), 'how': 'fresh' | 'dict' | 'Config' | 'update' |
+'update+Config', 'obj': id of the shared caller object (for how != 'fresh'), 'cache': id of a shared cache dict or None}.
+'dict' / 'Config': one object built once from `cfg` and used unchanged by all steps with that id; 'update': one dict per id
+that the caller edits in place until it equals this step's `cfg` before the call (nested dicts keep their identity),
+'update+Config': the same, passed as Config(dict) built for this call.
 
 Deliberately excluded (and why): `lorem*` abbreviations (random by design -- the one sanctioned non-determinism);
 `output.field` / `output.text` callbacks (caller code); a cache dict shared between configurations whose
@@ -46,7 +54,7 @@ import subprocess
 import sys
 
 from .common import Clause, run_parallel, REPO
-from . import c08_opts
+from . import c08_opts, c08_ctx, c08_tables
 
 CHECK_CACHE_ACROSS_SNIPPET_TABLES = False
 
@@ -196,6 +204,22 @@ def _run_step(step, objs, caches):
         if cid is not None:
             cfg['cache'] = caches.setdefault(cid, {})
         target = cfg
+    elif how in ('update', 'update+Config'):
+        # round 4: ONE caller-owned dict per `obj` id that the caller edits in place between its calls until it equals
+        # step['cfg'] (nested dicts such as `context` / `context.attributes` / `options` keep their identity); the call is made
+        # with that dict ('update') or with a Config built from it for this call ('update+Config')
+        key = step['obj']
+        if key not in objs:
+            objs[key] = ('*', {})
+        if objs[key][0] != '*':
+            raise ValueError('generator bug: shared object %r used both as a fixed and as an updated object' % (key,))
+        target = objs[key][1]
+        target.pop('cache', None)
+        _update_in_place(target, step['cfg'])
+        if cid is not None:
+            target['cache'] = caches.setdefault(cid, {})
+        if how == 'update+Config':
+            target = Config(target)
     else:
         key = step['obj']
         sig = json.dumps([step['cfg'], how, cid], sort_keys=True)
@@ -208,6 +232,19 @@ def _run_step(step, objs, caches):
             raise ValueError('generator bug: shared object %r used with two different specifications' % (key,))
         target = objs[key][1]
     return _outcome(step['abbr'], target)
+
+
+def _update_in_place(dst, src):
+    """the caller's edit: afterwards dst == src; dicts that exist on both sides are edited, not replaced (so they keep their
+    identity), everything else is assigned as a new copy; keys the library may have added (`text`) and that src lacks go"""
+    for k in list(dst):
+        if k not in src:
+            del dst[k]
+    for k, v in src.items():
+        if isinstance(v, dict) and isinstance(dst.get(k), dict):
+            _update_in_place(dst[k], v)
+        else:
+            dst[k] = _fresh(v)
 
 
 _REF_SCRIPT = r'''
@@ -289,8 +326,16 @@ def reference_batch(probes):
 
 
 def _describe(s):
-    return 'expand(%r, %s%s%s)' % (s['abbr'], json.dumps(s['cfg'], sort_keys=True),
-                                   '' if (s.get('how') or 'fresh') == 'fresh' else ' as shared %s #%s' % (s['how'], s['obj']),
+    how = s.get('how') or 'fresh'
+    if how == 'fresh':
+        sharing = ''
+    elif how == 'update':
+        sharing = ' = caller dict #%s edited in place to this value' % s['obj']
+    elif how == 'update+Config':
+        sharing = ' = Config(caller dict #%s edited in place to this value)' % s['obj']
+    else:
+        sharing = ' as shared %s #%s' % (how, s['obj'])
+    return 'expand(%r, %s%s%s)' % (s['abbr'], json.dumps(s['cfg'], sort_keys=True), sharing,
                                    '' if s.get('cache') is None else ' + shared cache #%s' % s['cache'])
 
 
@@ -303,6 +348,26 @@ def check_history(steps, probe):
     if got != want:
         hist = '; '.join(_describe(s) for s in steps + [probe])
         return 'after the history [%s] the last call gave %r, but the same call in a fresh interpreter gives %r' % (hist, got, want)
+    return None
+
+
+def check_probes(steps, probes):
+    """round 4: one history, then several probe calls one after the other; every probe outcome must equal the outcome of the
+    same call in a fresh interpreter (for probe i the history is `steps` + the probes before it, which is again a sequence of
+    expand calls). Lets many probes share the cost of one history (one snippet conversion is 7 ms)."""
+    objs, caches = {}, {}
+    for s in steps:
+        _run_step(s, objs, caches)
+    bad = []
+    for i, p in enumerate(probes):
+        got = json.loads(json.dumps(_run_step(p, objs, caches), default=repr))
+        want = reference(p['abbr'], p['cfg'])
+        if got != want:
+            bad.append('probe %d %s gave %r, but the same call in a fresh interpreter gives %r' % (i + 1, _describe(p), got, want))
+    if bad:
+        return 'after the history [%s] followed by the probes [%s]: %s%s' % (
+            '; '.join(_describe(s) for s in steps), '; '.join('%r' % p['abbr'] for p in probes), ' | '.join(bad[:3]),
+            '' if len(bad) <= 3 else ' | ... %d probes differ' % len(bad))
     return None
 
 
@@ -685,7 +750,43 @@ def run(tier, seed):
                'histories of 1..3 calls + probe over the fixed pools: %d' % len(g_unit), rule_3, exhaustive=False)
     run_parallel(c, 'bounded.c08', 'check_history', g_unit, chunk=40)
     out.append(c.done())
-    del g_cache, g_obj, g_ind, g_rnd, g_mkc, g_nest, g_opt, g_unit
+    # round 4: the context element / caller dicts edited in place (c08_ctx.py); callers with differing stylesheet snippet
+    # tables (c08_tables.py)
+    g_ctx = list(c08_ctx.gen_markup_context(seed, 1200 if quick else 20000))
+    g_sctx = list(c08_ctx.gen_stylesheet_context(seed, 100 if quick else 3000))
+    g_tab = list(c08_tables.gen_table_switch(seed, 100 if quick else 3000, 28 if quick else None, 3 if quick else 5))
+    n_probes4 = _precompute([g_ctx, [(st, p) for st, ps in g_sctx + g_tab for p in ps]], forked=True)
+    rule_4 = ('a case is one history plus one probe call (check_probes: plus several probe calls made one after the other); every '
+              'probe outcome is compared with the same call (equal, freshly built configuration, no cache) made as the first expand '
+              'call of a process forked from an interpreter that has only imported the library (%d distinct probes, one process '
+              'each); distinct by the JSON of history + probe(s)' % n_probes4)
+    c = Clause('context-switch', 'B', 'the `context` of the configuration differs between the calls of a history. Markup: %d parent elements '
+               '(names that decide implicit tags x class attributes of every BEM shape, none, no attributes) x %d option sets (BEM on with two '
+               'separator sets, + comments, off) x %d abbreviations (element- / modifier-prefixed classes whose block is in the abbreviation, '
+               'only in the context, nowhere; unnamed elements): same abbreviation below parent A then B -- through fresh dicts, and through ONE '
+               'caller dict that the caller edits in place between the calls (passed as dict or as Config(dict), every third with a cache): '
+               'every ordered pair x 4 abbreviations; A-B-A in place; seeded editing sessions of 3..6 calls (incl. raising ones). '
+               'Stylesheet: %d contexts (value context of 5 properties, the 4 scopes, none): 3 calls with A then 6 probes with B, every ordered '
+               'pair, fresh dicts / edited dict, one cache; seeded sessions'
+               % (len(c08_ctx.CTX), len(c08_ctx.MK_OPTS), len(c08_ctx.CTX_ABBRS), len(c08_ctx.ST_CTX)),
+               'histories of 1..6 calls + probe(s) over the fixed pools: %d markup, %d stylesheet (%d probes)'
+               % (len(g_ctx), len(g_sctx), sum(len(ps) for _, ps in g_sctx)), rule_4, exhaustive=False)
+    run_parallel(c, 'bounded.c08', 'check_history', g_ctx, chunk=300)
+    run_parallel(c, 'bounded.c08', 'check_probes', g_sctx, chunk=15)
+    out.append(c.done())
+    c = Clause('snippet-table-switch', 'B', 'callers with differing user stylesheet snippet tables, each with its own cache or none. For every '
+               'built-in property family (own reading of the raw css table; quick: the %s, 3 of the 5 kinds each) 5 kinds of mechanically built user tables -- a longhand below '
+               'the built-in shorthand, one with several keywords per alternative, a second snippet for the same property, a redefinition of '
+               'the built-in key, two nested levels -- plus user shorthands above built-in longhands; keywords from a pool of %d words. Probes: '
+               'the family\'s built-in keys with 2- / 3-letter prefixes of those words (`K:pp`, `K-pp`), bare keys, the prefixes in the value '
+               'context of the property. Histories: call with T (succeeding / raising / through a Config) then probes with the built-in table '
+               '(new cache; no cache; a Config made before the call with T); then probes with another table of the family and with T again; '
+               'built-in first, then T; + seeded histories over 1..3 tables of different families with option sets / syntaxes'
+               % ('24 families with built-in longhands + 4 others' if quick else 'all of them', len(c08_tables.WORDS)),
+               '%d histories, %d probes' % (len(g_tab), sum(len(ps) for _, ps in g_tab)), rule_4, exhaustive=False)
+    run_parallel(c, 'bounded.c08', 'check_probes', g_tab, chunk=10)
+    out.append(c.done())
+    del g_cache, g_obj, g_ind, g_rnd, g_mkc, g_nest, g_opt, g_unit, g_ctx, g_sctx, g_tab
     g_ret = list(gen_retention(seed, 300 if quick else 5000))
     c = Clause('no-retention', 'B', 'every pool (abbreviation, configuration) pair as fresh dict and as shared Config, plus seeded random histories; '
                'warm-up twice, snapshot, repeat 2-3 times, snapshot', '%d call sequences' % len(g_ret),
